@@ -71,8 +71,9 @@ def run(cmd, cwd=None, env=None, timeout=None, stdin=None, input_bytes=None):
 
 def build_tools():
     """go2lean binary (rebuilt when its source is newer)."""
-    src = os.path.join(VERIF, "tools", "go2lean", "main.go")
-    if not os.path.exists(G2L) or os.path.getmtime(G2L) < os.path.getmtime(src):
+    gdir = os.path.join(VERIF, "tools", "go2lean")
+    newest = max(os.path.getmtime(os.path.join(gdir, f)) for f in os.listdir(gdir) if f.endswith(".go") or f == "go.mod")
+    if not os.path.exists(G2L) or os.path.getmtime(G2L) < newest:
         os.makedirs(os.path.dirname(G2L), exist_ok=True)
         rc, out = run(["go", "build", "-o", G2L, "."], cwd=os.path.join(VERIF, "tools", "go2lean"), env=goenv(), timeout=300)
         if rc != 0:
